@@ -95,8 +95,8 @@ func c01(ctx *core.Ctx) {
 		ctx.Case(ti, "router="+router+" table="+core.JSON(t))
 		bo := rt.DefaultBuild(router)
 		bo.SelFilters = true
-		bo.Switched = ti%4 == 2
-		bo.Default = ti == 0 // once per process: the package-level DefaultContainer through restful.Add / restful.Filter
+		bo.Switched = ti%8 == 2 || ti%8 == 5 // both routers get their turn (the router is chosen by parity)
+		bo.Default = ti == 0                 // once per process: the package-level DefaultContainer through restful.Add / restful.Filter
 		c := rt.Build(t, bo)
 		rr := ctx.Rand(ti, "req")
 		var reqs []rt.Req
@@ -120,7 +120,8 @@ func c01(ctx *core.Ctx) {
 			})
 		}
 		if ti%50 == 3 {
-			builderReuse(ctx, ti, router)
+			builderReuse(ctx, ti, "curly")
+			builderReuse(ctx, ti, "jsr311")
 		}
 	}
 }
@@ -283,6 +284,9 @@ func c02(ctx *core.Ctx) {
 			continue
 		}
 		router := routerOf(ti)
+		if m := ti % 40; m >= 7 && m <= 11 {
+			router = routerOf(ti / 40) // the special table shapes below take turns on both routers
+		}
 		r := ctx.Rand(ti, "table")
 		o := fullGenOpts(router)
 		o.OddMethods = true
@@ -293,7 +297,8 @@ func c02(ctx *core.Ctx) {
 		case 10:
 			o.Nested, o.MinSvcs, o.VarRoots = true, 3, false
 		case 11:
-			oddTemplates(ctx, ti, router)
+			oddTemplates(ctx, ti, "curly")
+			oddTemplates(ctx, ti, "jsr311")
 		}
 		t := rt.GenTable(r, o)
 		emptied := ""
@@ -324,7 +329,7 @@ func c02(ctx *core.Ctx) {
 		}
 		ctx.Case(ti, "router="+router+" table="+core.JSON(t))
 		bo := rt.DefaultBuild(router)
-		bo.Switched = ti%4 == 2
+		bo.Switched = ti%8 == 2 || ti%8 == 5
 		bo.Default = ti == 0
 		c := rt.Build(t, bo)
 		rr := ctx.Rand(ti, "req")
